@@ -7,7 +7,7 @@ from typing import Any, Dict, List, Optional, Set, Tuple
 
 from ..core import fde
 from ..core.classworld import ClassWorld
-from ..core.fde import FELL, IndexOutOfRange, Lin, Obj, Raised, Tag, Undecided
+from ..core.fde import OneShot, FELL, IndexOutOfRange, Lin, Obj, Raised, Tag, Undecided
 from ..core.findings import Report
 from ..core.loader import AnalysisError, Repo, norm, short
 from . import exprmodel as EM
@@ -482,17 +482,25 @@ def check_helpers(repo: Repo, rep: Report, world: Optional[EM.ExprWorld] = None)
         try:
             for n in range(0, 4):
                 for combo in itertools.product(items, repeat=n):
-                    shapes = [list(combo)]
+                    makers = [lambda: list(combo)]
                     if n >= 2:
-                        shapes.append([[combo[0]], list(combo[1:])])  # nested iterables flatten
-                    for args in shapes:
+                        makers.append(lambda: [[combo[0]], list(combo[1:])])  # nested iterables flatten
+                    if n >= 1:
+                        # one-shot iterables (a generator expression, map, zip): their items can be taken once - an implementation that
+                        # walks its arguments twice sees nothing the second time
+                        makers.append(lambda: [OneShot(combo)])
+                        makers.append(lambda: [combo[0], [OneShot(combo[1:])]] if n >= 2 else [[OneShot(combo)]])
+                    for mk in makers:
+                        args = mk()
+                        shown = [("<generator of " + ", ".join(map(_show, a)) + ">") if isinstance(a, OneShot) else a for a in mk()]
                         ncases += 1
                         kind, tree = _run(world, lambda: world.call(cons, name, *args))
                         if kind != "value":
-                            bad = (args, f"{kind}: {tree}")
+                            bad = (shown, f"{kind}: {tree}")
                             break
+                        args = shown
                         for val in _bool_vals(["b0", "b1"]):
-                            flat = world._flatten(*args)
+                            flat = world._flatten(*mk())
                             want = meaning([val[x.attrs["leaf"]] if isinstance(x, Obj) else x for x in flat])
                             got = world.denote(tree, val)
                             if not same(got, want):
@@ -530,15 +538,19 @@ def check_helpers(repo: Repo, rep: Report, world: Optional[EM.ExprWorld] = None)
     try:
         for n in range(0, 4):
             for combo in itertools.product([1, 2, i0, i1], repeat=n):
-                ncases += 1
-                kind, tree = _run(world, lambda: world.call(cons, "alldifferent", list(combo)))
-                if kind != "value":
-                    bad = (combo, f"{kind}: {tree}")
-                    break
-                for val in _int_vals(True, ["i0", "i1"]):
-                    xs = [val[x.attrs["leaf"]] if isinstance(x, Obj) else x for x in combo]
-                    if not same(world.denote(tree, val), EM._alldiff(xs)):
-                        bad = (combo, f"under {val} is not pairwise distinctness")
+                for oneshot in ((False, True) if n else (False,)):
+                    ncases += 1
+                    kind, tree = _run(world, lambda: world.call(cons, "alldifferent", OneShot(combo) if oneshot else list(combo)))
+                    label = combo if not oneshot else ("<generator>",) + tuple(combo)
+                    if kind != "value":
+                        bad = (label, f"{kind}: {tree}")
+                        break
+                    for val in _int_vals(True, ["i0", "i1"]):
+                        xs = [val[x.attrs["leaf"]] if isinstance(x, Obj) else x for x in combo]
+                        if not same(world.denote(tree, val), EM._alldiff(xs)):
+                            bad = (label, f"under {val} is not pairwise distinctness")
+                            break
+                    if bad:
                         break
                 if bad:
                     break
